@@ -29,11 +29,13 @@ def QF (cfg : Cfg) (prog : Nat → List (List UInt8)) (b : Buf) (owner : Option 
     stop := false, owner := owner, bpc := .top, joined := false, delivered := deliv, acq := acq, active := 0,
     late := false }
 
-theorem cycleFull (cfg : Cfg) (hm : 1 ≤ cfg.minN) (prog b owner deliv acq) :
+theorem cycleFull (cfg : Cfg) (hm : 1 ≤ cfg.minN) (prog b) (owner : Option Owner)
+    (hown : ∀ o, owner = some o → o.tid ≠ sinkTid) (deliv acq) :
     Reach (QF cfg prog b owner deliv acq) (Q cfg prog none owner (deliv ++ [b]) acq) := by
   apply Reach.of_exec [.bTop, .bGrab, .bPop, .bCbRet, .bPushFree, .bPop]
-  simp [exec, valid, step, QF, Q, currCount]
-  omega
+  cases owner with
+  | none => simp [exec, valid, step, QF, Q, currCount]; omega
+  | some o => have := hown o rfl; simp [exec, valid, step, QF, Q, currCount, this]; omega
 
 theorem cycleGrab (cfg : Cfg) (hm : 1 ≤ cfg.minN) (prog c deliv acq) :
     Reach (Q cfg prog (some c) none deliv acq) (Q cfg prog none none (deliv ++ [c]) acq) := by
@@ -59,7 +61,7 @@ theorem feed_lt (size : Nat) (hs : 1 ≤ size) : ∀ (fuel : Nat) (c d : List UI
         omega
 
 /-- the chunk loop of one append, from a quiet state with the producer lock held -/
-theorem chunks (cfg : Cfg) (hm : 1 ≤ cfg.minN) (hs : 1 ≤ cfg.size) (prog) (p : Nat) (acq) :
+theorem chunks (cfg : Cfg) (hm : 1 ≤ cfg.minN) (hs : 1 ≤ cfg.size) (prog) (p : Nat) (hp7 : p ≠ sinkTid) (acq) :
     ∀ (fuel : Nat) (c r : List UInt8) (deliv : List Buf), c.length < cfg.size → r.length ≤ fuel →
     Reach (Q cfg prog (optOf c) (some ⟨p, r, false⟩) deliv acq)
           (Q cfg prog (optOf (feed cfg.size fuel c r).2) (some ⟨p, [], false⟩) (deliv ++ (feed cfg.size fuel c r).1) acq) := by
@@ -107,7 +109,7 @@ theorem chunks (cfg : Cfg) (hm : 1 ≤ cfg.minN) (hs : 1 ≤ cfg.size) (prog) (p
               (some ⟨p, r.drop (min r.length (cfg.size - c.length)), false⟩) deliv acq) := by
           apply Reach.of_exec [.pWrite]
           simp [exec, valid, step, Q, QF, writeChunk, currCount, hr', hfull]
-        refine h2.trans ((cycleFull cfg hm prog _ _ deliv acq).trans ?_)
+        refine h2.trans ((cycleFull cfg hm prog _ _ (by intro o ho; cases ho; exact hp7) deliv acq).trans ?_)
         have hlen : (r.drop (min r.length (cfg.size - c.length))).length ≤ n := by
           simp only [List.length_drop]; omega
         have := ih [] (r.drop (min r.length (cfg.size - c.length))) (deliv ++ [c ++ r.take (min r.length (cfg.size - c.length))])
@@ -132,15 +134,15 @@ theorem chunks (cfg : Cfg) (hm : 1 ≤ cfg.minN) (hs : 1 ≤ cfg.size) (prog) (p
 
 /-- one whole append of thread `p` from a quiet state -/
 theorem oneAppend (cfg : Cfg) (hm : 1 ≤ cfg.minN) (hs : 1 ≤ cfg.size) (prog) (p : Nat) (d : List UInt8)
-    (rest : List (List UInt8)) (hp : prog p = d :: rest) (c : List UInt8) (hc : c.length < cfg.size) (deliv acq) :
+    (rest : List (List UInt8)) (hp7 : p ≠ sinkTid) (hp : prog p = d :: rest) (c : List UInt8) (hc : c.length < cfg.size) (deliv acq) :
     Reach (Q cfg prog (optOf c) none deliv acq)
           (Q cfg (fun q => if q = p then rest else prog q) (optOf (feed cfg.size d.length c d).2) none
              (deliv ++ (feed cfg.size d.length c d).1) (acq ++ [(p, d)])) := by
   have h1 : Reach (Q cfg prog (optOf c) none deliv acq)
       (Q cfg (fun q => if q = p then rest else prog q) (optOf c) (some ⟨p, d, false⟩) deliv (acq ++ [(p, d)])) := by
     apply Reach.of_exec [.acquire p]
-    simp [exec, valid, step, Q, hp]
-  have h2 := chunks cfg hm hs (fun q => if q = p then rest else prog q) p (acq ++ [(p, d)]) d.length c d deliv hc (Nat.le_refl _)
+    simp [exec, valid, step, Q, hp, hp7]
+  have h2 := chunks cfg hm hs (fun q => if q = p then rest else prog q) p hp7 (acq ++ [(p, d)]) d.length c d deliv hc (Nat.le_refl _)
   have h3 : Reach (Q cfg (fun q => if q = p then rest else prog q) (optOf (feed cfg.size d.length c d).2)
         (some ⟨p, [], false⟩) (deliv ++ (feed cfg.size d.length c d).1) (acq ++ [(p, d)]))
       (Q cfg (fun q => if q = p then rest else prog q) (optOf (feed cfg.size d.length c d).2) none
@@ -174,21 +176,23 @@ def progOf : List (Nat × List UInt8 × Bool) → Nat → List (List UInt8)
 
 theorem realize (cfg : Cfg) (hm : 1 ≤ cfg.minN) (hs : 1 ≤ cfg.size) :
     ∀ (ord : List (Nat × List UInt8 × Bool)) (prog : Nat → List (List UInt8)) (c : List UInt8) (deliv acq),
-    (∀ p, prog p = progOf ord p) → c.length < cfg.size →
+    (∀ x ∈ ord, x.1 ≠ sinkTid) → (∀ p, prog p = progOf ord p) → c.length < cfg.size →
     ∃ s, Reach (Q cfg prog (optOf c) none deliv acq) s ∧ s.joined = true ∧ s.late = false ∧
       s.delivered = deliv ++ pack cfg.size c (ord.map (fun x => (x.2.1, x.2.2))) ∧
       s.acq = acq ++ ord.map (fun x => (x.1, x.2.1)) := by
   intro ord
   induction ord with
   | nil =>
-    intro prog c deliv acq _ _
+    intro prog c deliv acq _ _ _
     obtain ⟨s, hr, hj, hl, hd, ha⟩ := finalPhase cfg hm prog c deliv acq
     exact ⟨s, hr, hj, hl, by simpa [pack] using hd, by simpa using ha⟩
   | cons x rest ih =>
     obtain ⟨p, d, g⟩ := x
-    intro prog c deliv acq hprog hc
+    intro prog c deliv acq h7 hprog hc
+    have hp7 : p ≠ sinkTid := h7 (p, d, g) (by simp)
+    have h7' : ∀ x ∈ rest, x.1 ≠ sinkTid := fun x hx => h7 x (by simp [hx])
     have hp : prog p = d :: progOf rest p := by rw [hprog p]; simp [progOf]
-    have h1 := oneAppend cfg hm hs prog p d (progOf rest p) hp c hc deliv acq
+    have h1 := oneAppend cfg hm hs prog p d (progOf rest p) hp7 hp c hc deliv acq
     have hprog' : ∀ q, (fun q => if q = p then progOf rest p else prog q) q = progOf rest q := by
       intro q
       by_cases hq : q = p
@@ -205,14 +209,14 @@ theorem realize (cfg : Cfg) (hm : 1 ≤ cfg.minN) (hs : 1 ≤ cfg.size) :
       have hopt : optOf (feed cfg.size d.length c d).2 = some (feed cfg.size d.length c d).2 := by simp [optOf, hne]
       rw [hopt] at h1
       obtain ⟨s, hr, hj, hl, hd, ha⟩ := ih _ [] (deliv ++ (feed cfg.size d.length c d).1 ++ [(feed cfg.size d.length c d).2])
-        (acq ++ [(p, d)]) hprog' (by simp only [List.length_nil]; omega)
+        (acq ++ [(p, d)]) h7' hprog' (by simp only [List.length_nil]; omega)
       have hq0 : optOf ([] : List UInt8) = none := by simp [optOf]
       rw [hq0] at hr
       refine ⟨s, h1.trans (h2.trans hr), hj, hl, ?_, ?_⟩
       · simp only [List.map_cons, pack, hg, if_true, hd, List.append_assoc]
       · simp [ha, List.append_assoc]
     · obtain ⟨s, hr, hj, hl, hd, ha⟩ := ih _ (feed cfg.size d.length c d).2 (deliv ++ (feed cfg.size d.length c d).1)
-        (acq ++ [(p, d)]) hprog' hlt
+        (acq ++ [(p, d)]) h7' hprog' hlt
       refine ⟨s, h1.trans hr, hj, hl, ?_, ?_⟩
       · simp only [List.map_cons, pack, hg, Bool.false_eq_true, if_false, hd, List.append_assoc]
       · simp [ha, List.append_assoc]
